@@ -1,6 +1,7 @@
 package harness
 
 import (
+	"encoding/json"
 	"fmt"
 	"regexp"
 	"sort"
@@ -980,6 +981,34 @@ func runC11(x *X) *Violation {
 				if tmpl == "" || !templateMatches(tmpl, a.Msg) {
 					return &Violation{Class: fmt.Sprintf("C11/message-not-from-language-map code=%s type=%s", codeClass(a.Code), a.Type),
 						Detail: fmt.Sprintf("%s; expected the template %q of this execution's language", a.Full(), tmpl)}
+				}
+				// the placeholder of a string test is filled with the test's own parameter, character for character
+				if ts != nil && cn != nil && cn.Kind == "string" && strings.Contains(tmpl, "{{") && len(ts.Params) == 0 {
+					// (the issue's own params say which of several like-coded tests this is)
+					want := ""
+					var pm map[string]any
+					if json.Unmarshal([]byte(a.Params), &pm) == nil && len(pm) == 1 {
+						for _, v := range pm {
+							switch vv := v.(type) {
+							case string:
+								want = vv
+							case []any:
+								strs := make([]string, 0, len(vv))
+								for _, e := range vv {
+									if es, ok := e.(string); ok {
+										strs = append(strs, es)
+									}
+								}
+								if len(strs) == len(vv) {
+									want = fmt.Sprint(strs)
+								}
+							}
+						}
+					}
+					if want != "" && !strings.Contains(a.Msg, want) {
+						return &Violation{Class: fmt.Sprintf("C11/parameter-not-rendered-verbatim code=%s", codeClass(a.Code)),
+							Detail: fmt.Sprintf("%s; the test's parameter %q does not appear in the message (template %q)", a.Full(), want, tmpl)}
+					}
 				}
 				x.Probes["msg_language_map"]++
 			}
